@@ -40,3 +40,25 @@ Theorem C05_load_intact : forall crc shards, good_shards shards ->
   load_data crc (stored_image crc shards) = LOk (concat shards).
 Proof. exact load_intact. Qed.
 Print Assumptions C05_load_intact.
+
+(** WITH delta interleaving and concurrent mutation (Mvcc/Delta.v; scan-step granularity): the stored
+    snapshot is released while the scan runs, other goroutines' operations — deletes, new snapshots,
+    GC passes and collection-worker steps that physically remove versions the snapshot can see — run
+    before the scan and between any two delivered items, collection workers record such versions in the
+    delta before unlinking them.  For every history, snapshot open at the start, pivots, refresh rate
+    and interleaved segments: if the scan ran to its end, an item is in the snapshot iff it is in a data
+    shard or in the delta, and the concatenated data shards are strictly increasing ... *)
+From NV Require Import Mvcc.Live Mvcc.Delta Mvcc.DeltaStmts Mvcc.DeltaProofs.
+Theorem C05_delta_backup : forall kcmp, cmp_laws kcmp -> stmt_delta_backup kcmp.
+Proof. exact delta_backup_exact. Qed.
+Print Assumptions C05_delta_backup.
+
+(** ... hence loading the data shards and Putting every delta item (Puts of present keys rejected)
+    yields exactly the snapshot *)
+Theorem C05_delta_restore : forall kcmp, cmp_laws kcmp -> stmt_delta_restore kcmp.
+Proof. exact delta_restore_exact. Qed.
+Print Assumptions C05_delta_restore.
+
+(** non-vacuity: a history in which the released snapshot's items are deleted and collected ahead of,
+    under and behind the scan *)
+Example C05_delta_nonvacuous := delta_backup_nonvacuous.
